@@ -82,7 +82,7 @@ def run(check: Check) -> None:
     run_cases(check, cases, _case)
     # native leg (ground): numeric inputs as raw float64 arrays in the context, incl. lag (defined across rows)
     for formula in cc.CONTEXT_ARRAY_FORMULAS:
-        for h in [h for r in (1, 2) for h in itertools.product(("M1", "M2", "S1", "S2", "F1", "U2"), repeat=r)] + [("M1", "S2", "M1"), ("S1", "S1", "S2"), ("F2", "M1", "F2")]:
+        for h in [h for r in (1, 2) for h in itertools.product(("M1", "M2", "S1", "S2", "F1", "U2", "R1"), repeat=r)] + [("M1", "S2", "M1"), ("S1", "S1", "S2"), ("F2", "M1", "F2"), ("R1", "R1", "R1"), ("R2", "M2", "R2")]:
             p = {"kind": "c18_context_arrays", "formula": formula, "history": list(h)}
             bad = replays.run(p)
             check.case(f"context-arrays:{formula}:{h}")
